@@ -19,6 +19,11 @@ import RF.Driver.Comment
 import RF.Driver.ParseErrs
 import RF.Driver.Lists
 import RF.Driver.StringFmt
+import RF.Driver.MacroFmt
+import RF.Driver.MissedSpans
+import RF.Driver.OptRewrites
+import RF.Driver.Vertical
+import RF.Driver.Budgets
 /-!
 `rfmodel`: one request per line on stdin, one response per line on stdout.
 `?` is printed for a request no handler understands (the harness treats it as a protocol error,
@@ -46,7 +51,12 @@ def handlers : List (String → List String → Option String) :=
    RF.Driver.Comment.handle,
    RF.Driver.ParseErrs.handle,
    RF.Driver.Lists.handle,
-   RF.Driver.StringFmt.handle]
+   RF.Driver.StringFmt.handle,
+   RF.Driver.MacroFmt.handle,
+   RF.Driver.MissedSpans.handle,
+   RF.Driver.OptRewrites.handle,
+   RF.Driver.Vertical.handle,
+   RF.Driver.Budgets.handle]
 
 def dispatch (line : String) : String :=
   match (line.trimAscii.toString.splitOn " ").filter (· ≠ "") with
